@@ -172,9 +172,12 @@ def handle_type_accepted(close_fi, cls_name):
         if isinstance(n, ast.Call) and callee_name(n) == "isinstance" and len(n.args) == 2 and cls_name in src(n.args[1]):
             found = True
             bad = None
-            for t, pol in path_conditions(n, close_fi.node):
+            # control dependence, not value facts: a condition evaluated earlier speaks about the value the name had then
+            # (the parameter), even if the name is re-bound afterwards - so no kill check here
+            params = set(close_fi.params())
+            for t, pol in path_conditions(n, close_fi.node, check_kill=False):
                 for e, p in split_conj(t, pol):
-                    if p and isinstance(e, ast.Call) and callee_name(e) == "isinstance" and len(e.args) == 2 and cls_name not in src(e.args[1]) and src(e.args[0]) == src(n.args[0]):
+                    if p and isinstance(e, ast.Call) and callee_name(e) == "isinstance" and len(e.args) == 2 and cls_name not in src(e.args[1]) and src(e.args[0]) in params:
                         bad = src(e)
             if bad is None:
                 return True, True, None
